@@ -8,21 +8,27 @@ Import ListNotations.
 Open Scope Z_scope.
 
 Record st := { lastp : list (key * list Z); resp : list Z (* endpoints that sent a stateless response *);
-               connected : list key }.
+               connected : list key; born : list key (* one entry per incarnation *) }.
 
 (** frames of kind [j] (stats index of tx; rx is j+1) *)
 Definition le_tx (rxp txp : list Z) (j : nat) : bool := sf rxp (j + 1) <=? sf txp j.
 
+Definition incarnations (s : st) (k : key) : nat := length (filter (key_eqb k) (born s)).
+
+(** compared only where both sides had a single incarnation (a replayed Initial may open a
+    second, unrelated attempt under the same pair index) *)
 Definition final_ok (s : st) : bool :=
   forallb (fun kv =>
     let '((e, idx), p) := kv in
     match aget (lastp s) (1 - e, idx) with
-    | Some q => le_tx p q 8 && le_tx p q 10 && le_tx p q 12
+    | Some q =>
+        Nat.ltb 1 (incarnations s (e, idx)) || Nat.ltb 1 (incarnations s (1 - e, idx))
+        || (le_tx p q 8 && le_tx p q 10 && le_tx p q 12)
     | None => true
     end) (lastp s).
 
 Definition step (s : st) (r : list Z) : option st :=
-  if tag r =? 8 then Some {| lastp := aset (lastp s) (rkey r) r; resp := resp s; connected := connected s |}
+  if tag r =? 8 then Some {| lastp := aset (lastp s) (rkey r) r; resp := resp s; connected := connected s; born := born s |}
   else if tag r =? 2 then
     (* routing: a datagram produced by connection [origin] is handed to that connection only *)
     let out := fld r 5 in
@@ -31,12 +37,13 @@ Definition step (s : st) (r : list Z) : option st :=
        (index 255: no pair identity); genuine and in-flight duplicates must reach their owner *)
     let fresh_attempt := (out =? 2) && (fld r 6 =? 255) && ((fld r 9 =? 5) || (fld r 9 =? 6)) in
     if ((out =? 1) || (out =? 2)) && (0 <=? origin) && negb (fld r 6 =? origin) && negb fresh_attempt then None
-    else if out =? 3 then Some {| lastp := lastp s; resp := rep r :: resp s; connected := connected s |}
+    else if out =? 3 then Some {| lastp := lastp s; resp := rep r :: resp s; connected := connected s; born := born s |}
     else Some s
   else if (tag r =? 3) && ((fld r 4 =? 20) || (fld r 4 =? 21)) then
     (* a new incarnation under this pair index has not connected yet *)
     Some {| lastp := lastp s; resp := resp s;
-            connected := filter (fun k => negb (key_eqb k (rkey r))) (connected s) |}
+            connected := filter (fun k => negb (key_eqb k (rkey r))) (connected s);
+            born := rkey r :: born s |}
   else if tag r =? 11 then None
   else if tag r =? 4 then
     if (fld r 4 =? 3) && negb (ridx r =? 255) then
@@ -47,11 +54,11 @@ Definition step (s : st) (r : list Z) : option st :=
       (* a replayed Initial opens a fresh attempt that can only time out *)
       else if (fld r 5 =? 6) && negb (existsb (key_eqb (rkey r)) (connected s)) then Some s
       else None
-    else if fld r 4 =? 2 then Some {| lastp := lastp s; resp := resp s; connected := rkey r :: connected s |}
+    else if fld r 4 =? 2 then Some {| lastp := lastp s; resp := resp s; connected := rkey r :: connected s; born := born s |}
     else Some s
   else if tag r =? 10 then
     if final_ok s then Some s else None
   else Some s.
 
 Definition monitor (i : ops) (o : outs) : option Z :=
-  snd (run_from step 0 {| lastp := []; resp := []; connected := [] |} o).
+  snd (run_from step 0 {| lastp := []; resp := []; connected := []; born := [] |} o).
